@@ -276,6 +276,11 @@ func (w *World) stepBlock(s *Step) {
 	}
 	adds := make([]H, nAdds, nAdds+2)
 	leaves := make([]u.Leaf, nAdds, nAdds+2)
+	// Every added leaf gets a fresh hash: the checks assume that leaf hashes are
+	// unique over the whole history and differ from every node hash (they are
+	// digests; the library keys several maps by hash).  A leaf that repeats the
+	// hash of a deleted leaf or carries the bytes of an internal node is treated
+	// like a hash collision and is not generated (DESIGN.md section 10).
 	for i := range adds {
 		adds[i] = w.newLeaf()
 		leaves[i] = u.Leaf{Hash: adds[i]}
